@@ -1,7 +1,7 @@
 (** Property C10 -- exact frame boundaries.  First statements (more in later commits): the header reader and the
     block loop consume exactly what they count. *)
 Require Import Zrs.lib.RsPrelude Zrs.gen.Generated Zrs.model.Headers Zrs.model.BlockDec Zrs.model.FrameDec.
-Require Import Zrs.proofs.C05_Block Zrs.proofs.C06_Frame Zrs.proofs.C11_Reset.
+Require Import Zrs.proofs.C05_Block Zrs.proofs.C06_Frame Zrs.proofs.C11_Reset Zrs.proofs.C10_Prefix.
 Open Scope Z_scope.
 
 Theorem C10_header_consumed_exactly : forall src h n, read_frame_header src = FhOk h n ->
@@ -18,5 +18,26 @@ Theorem C10_blocks_consumed_exactly : forall fuel s src strat len_before blocks_
   (strat <> SAll -> db_len (st_buf s') <= strat_bound strat s len_before blocks_before).
 Proof. exact decode_blocks_loop_inv. Qed.
 
+(** truncation: a strict prefix of a frame that decodes completely (nothing left over) is never decoded to a normal
+    return, wherever it is cut -- in the header, in a block header, inside a block, inside the checksum *)
+Theorem C10_strict_prefix_never_decodes : forall d frame d1 rest ev d2,
+  fdec_reset d frame = ROk (d1, rest, ev) -> fdec_decode_blocks d1 rest SAll = ROk (d2, [], true) ->
+  forall p t, frame = p ++ t -> t <> [] ->
+  forall d1' rest' ev', fdec_reset d p = ROk (d1', rest', ev') ->
+  forall x, fdec_decode_blocks d1' rest' SAll <> ROk x.
+Proof. exact frame_prefix_never_finishes. Qed.
+
+(** trailing data: whatever follows a frame is left unread, and a normal return of decode-all means finished *)
+Theorem C10_trailing_bytes_left_unread : forall fuel s src lb bb s' rest t,
+  decode_blocks_loop fuel s src SAll lb bb = ROk (s', rest) ->
+  decode_blocks_loop fuel s (src ++ t) SAll lb bb = ROk (s', rest ++ t) /\ fr_finished s' = true.
+Proof. exact loop_ext. Qed.
+
+Theorem C10_header_ignores_what_follows : forall src h n t, read_frame_header src = FhOk h n -> read_frame_header (src ++ t) = FhOk h n.
+Proof. exact read_frame_header_ext. Qed.
+
+Print Assumptions C10_strict_prefix_never_decodes.
+Print Assumptions C10_trailing_bytes_left_unread.
+Print Assumptions C10_header_ignores_what_follows.
 Print Assumptions C10_header_consumed_exactly.
 Print Assumptions C10_blocks_consumed_exactly.
